@@ -53,7 +53,11 @@ func sigOfIfaceMethod(recv types.Type, m *types.Func) *calleeSig {
 	cs := &calleeSig{name: m.Name(), pkg: m.Pkg(), results: sig.Results()}
 	cs.params = append(cs.params, types.NewVar(m.Pos(), m.Pkg(), "recv", recv))
 	for i := 0; i < sig.Params().Len(); i++ {
-		cs.params = append(cs.params, sig.Params().At(i))
+		p := sig.Params().At(i)
+		if p.Name() == "" || p.Name() == "_" {
+			p = types.NewVar(p.Pos(), p.Pkg(), fmt.Sprintf("arg%d", i), p.Type())
+		}
+		cs.params = append(cs.params, p)
 	}
 	return cs
 }
@@ -339,11 +343,10 @@ func (x *Exec) dispatch(st *State, fr *Frame, c *callCtx) {
 		x.unsupported(st, "recursive call to "+c.name+" without contract")
 		return
 	}
-	if fn.Blocks == nil {
-		x.unsupported(st, "call to external function "+c.name)
-		return
-	}
-	if !x.prog.inRepo(fn) && !allowInline(c.name) {
+	if fn.Blocks == nil || (!x.prog.inRepo(fn) && !allowInline(c.name)) {
+		if x.pureFallback(st, fr, c) {
+			return
+		}
 		x.unsupported(st, "call to external function "+c.name)
 		return
 	}
@@ -446,6 +449,17 @@ func (x *Exec) applyContract(st *State, fr *Frame, c *callCtx, ct *Contract) {
 	x.extendEnv(env, st, fr)
 	env.assume = true
 	for _, cl := range ct.Ensures {
+		// a clause tagged "body" speaks about what the callee's body does internally (its own recorded
+		// calls); it is proved for the callee and means nothing at a call site
+		skip := false
+		for _, p := range cl.Props {
+			if p == "body" {
+				skip = true
+			}
+		}
+		if skip {
+			continue
+		}
 		t, err := env.EvalBool(cl.Text)
 		if err != nil {
 			x.unsupported(st, err.Error())
@@ -520,9 +534,13 @@ func (x *Exec) builtin(st *State, fr *Frame, b *ssa.Builtin, c *callCtx) {
 				x.finish(st, fr, c, VScalar{m.LenT})
 			}
 		case VChan:
-			t := x.sym.Fresh("chan.len", SInt)
-			st.assume(Ge(t, IntLit(0)))
-			x.finish(st, fr, c, VScalar{t})
+			if b.Name() == "len" {
+				x.finish(st, fr, c, VScalar{x.chanLen(st, v)})
+			} else {
+				t := x.sym.Fresh("chan.cap", SInt)
+				st.assume(Ge(t, IntLit(0)))
+				x.finish(st, fr, c, VScalar{t})
+			}
 		case VArray:
 			x.finish(st, fr, c, VScalar{IntLit(int64(len(v.E)))})
 		default:
@@ -637,6 +655,21 @@ func (x *Exec) appendBuiltin(st *State, fr *Frame, c *callCtx) {
 	}
 	e0, c0 := elemsOf(s0)
 	e1, c1 := elemsOf(s1)
+	// "site [loop N] append <ElemType> assert e": e holds for every element (bound to elem) appended
+	// to a slice of that element type
+	if c1 && len(st.frames) > 0 && fr == st.frames[0] {
+		if slt, ok := s0.Typ.Underlying().(*types.Slice); ok {
+			et := slt.Elem()
+			tn := stripGenerics(types.TypeString(et, func(*types.Package) string { return "" }))
+			tn = strings.TrimLeft(tn, "*")
+			if i := strings.LastIndex(tn, "."); i >= 0 {
+				tn = tn[i+1:]
+			}
+			for _, ev := range e1 {
+				x.siteAsserts(st, fr, "append", tn, map[string]TV{"elem": {ev, et}})
+			}
+		}
+	}
 	if c0 && c1 {
 		// both concrete. A possibly-nil symbolic flag only matters for nilness of the result.
 		all := append(append([]Value(nil), e0...), e1...)
@@ -717,4 +750,69 @@ func (x *Exec) appendBuiltin(st *State, fr *Frame, c *callCtx) {
 		nilT = s0.Nil
 	}
 	x.finish(st, fr, c, VSlice{Nil: nilT, Arr: obj, Len: na.Len, Typ: s0.Typ})
+}
+
+var purePackages = map[string]bool{"strings": true, "strconv": true, "path": true, "path/filepath": true, "unicode": true, "unicode/utf8": true, "net/url": false}
+
+// pureFallback models a function of a side-effect free standard package whose parameters and result are
+// scalars (string, integer, bool) as an uninterpreted function of its arguments: equal arguments give equal
+// results, nothing else is known. Functions returning (value, error) may fail arbitrarily.
+func (x *Exec) pureFallback(st *State, fr *Frame, c *callCtx) bool {
+	fn := c.fn
+	if fn == nil || fn.Pkg == nil || !purePackages[fn.Pkg.Pkg.Path()] || fn.Signature.Recv() != nil || fn.Signature.Variadic() {
+		return false
+	}
+	sig := fn.Signature
+	var sorts []Sort
+	var args []Term
+	for i := 0; i < sig.Params().Len(); i++ {
+		s, ok := scalarSort(sig.Params().At(i).Type())
+		if !ok || i >= len(c.args) {
+			return false
+		}
+		sc, ok := x.force(st, c.args[i]).(VScalar)
+		if !ok {
+			return false
+		}
+		sorts = append(sorts, s)
+		args = append(args, sc.T)
+	}
+	nres := sig.Results().Len()
+	if nres < 1 || nres > 2 {
+		return false
+	}
+	rs, ok := scalarSort(sig.Results().At(0).Type())
+	if !ok {
+		return false
+	}
+	withErr := false
+	if nres == 2 {
+		if types.TypeString(sig.Results().At(1).Type(), nil) != "error" {
+			return false
+		}
+		withErr = true
+	}
+	name := "pure." + fn.Pkg.Pkg.Path() + "." + fn.Name()
+	f := x.sym.Func(name, sorts, rs)
+	var res Term
+	if len(args) == 0 {
+		res = Term{f, rs}
+	} else {
+		res = App(rs, f, args...)
+	}
+	if rs == SInt {
+		if b := basicOf(sig.Results().At(0).Type()); b != nil {
+			if lo, hi, ok := intRange(b); ok {
+				st.assume(App(SBool, "and", App(SBool, "<=", Term{lo, SInt}, res), App(SBool, "<=", res, Term{hi, SInt})))
+			}
+		}
+	}
+	x.notes["external "+fn.Pkg.Pkg.Path()+"."+fn.Name()+": standard library function of scalars modelled as an uninterpreted function of its arguments (no semantics beyond determinism)"] = true
+	if !withErr {
+		x.finish(st, fr, c, VScalar{res})
+		return true
+	}
+	fail := x.sym.Fresh(fn.Name()+".fails", SBool)
+	x.finish(st, fr, c, VTuple{[]Value{VScalar{res}, x.freshErr(st, fn.Name()+".err", Not(fail))}})
+	return true
 }
